@@ -16,6 +16,8 @@ import (
 
 type progCase struct {
 	Prog []refmodel.Stmt `json:"prog"`
+	// Strict: the router is built with StrictLastSlash (trailing slashes of prefixes and paths are significant)
+	Strict bool `json:"strict_last_slash,omitempty"`
 }
 
 // ---- model interpretation ---------------------------------------------------
@@ -37,19 +39,21 @@ type mResult struct {
 	N          int
 }
 
-func concrete(p string) string { return strings.ReplaceAll(p, "{id}", "7") }
+func concrete(p string) string {
+	return strings.ReplaceAll(strings.ReplaceAll(p, "{id}", "7"), "{v}", "vv")
+}
 
-func modelProgram(prog []refmodel.Stmt) *mResult {
+func modelProgram(prog []refmodel.Stmt, strict bool) *mResult {
 	res := &mResult{}
 	ids := &refmodel.IDGen{}
 	rn, cn := 0, 0
 	var walk func(stmts []refmodel.Stmt, prefix string, group []int, inGroup bool)
 	addRoute := func(method, prefix, own string, chain []int) {
-		p := refmodel.Norm(own, false)
+		p := refmodel.Norm(own, strict)
 		bare := ""
 		if prefix != "" {
 			bare = concrete(p)
-			p = refmodel.Norm(prefix+p, false)
+			p = refmodel.Norm(prefix+p, strict)
 		}
 		res.Routes = append(res.Routes, mRoute{Method: method, Path: p, Req: concrete(p), Chain: chain, Bare: bare})
 	}
@@ -66,12 +70,15 @@ func modelProgram(prog []refmodel.Stmt) *mResult {
 				}
 			case "group":
 				mw := ids.Take(s.K)
-				walk(s.Body, prefix+refmodel.Norm(s.Prefix, false), cat(group, mw...), true)
+				walk(s.Body, prefix+refmodel.Norm(s.Prefix, strict), cat(group, mw...), true)
 			case "route":
 				mids := ids.Take(s.K)
 				main := ids.Take(1)
 				later := ids.Take(s.K2)
 				own := fmt.Sprintf("/r%d", rn)
+				if s.Via == "slash" {
+					own += "/"
+				}
 				if s.Via == "echo" {
 					// the route's own path starts with the text of the enclosing groups' prefix
 					own = prefix + own
@@ -87,7 +94,7 @@ func modelProgram(prog []refmodel.Stmt) *mResult {
 				mw := ids.Take(s.K)
 				mains := ids.Take(2)
 				rmw := ids.Take(1)
-				gp := prefix + refmodel.Norm(fmt.Sprintf("%s%d", s.Prefix, cn), false)
+				gp := prefix + refmodel.Norm(fmt.Sprintf("%s%d", s.Prefix, cn), strict)
 				cn++
 				g := cat(group, mw...)
 				addRoute("GET", gp, "/", cat(g, mains[0]))
@@ -95,11 +102,12 @@ func modelProgram(prog []refmodel.Stmt) *mResult {
 			case "resource":
 				mw := ids.Take(s.K)
 				mains := ids.Take(3) // Index, Show, Store
-				gp := prefix + refmodel.Norm(fmt.Sprintf("/q%d%swidget", cn, s.Prefix), false)
+				gp := prefix + refmodel.Norm(fmt.Sprintf("/q%d%swidget", cn, s.Prefix), strict)
 				cn++
 				g := cat(group, mw...)
+				// (the paths Resource itself passes on: "/" and "{id}/")
 				addRoute("GET", gp, "/", cat(g, mains[0]))
-				addRoute("GET", gp, "/{id}", cat(g, mains[1]))
+				addRoute("GET", gp, "{id}/", cat(g, mains[1]))
 				addRoute("POST", gp, "/", cat(g, mains[2]))
 			}
 		}
@@ -145,7 +153,7 @@ type progRun_ struct {
 	rts       []*rux.Route // the registered routes in model order (nil where the harness holds no handle)
 }
 
-func execProgram(prog []refmodel.Stmt, sentinel bool) (pr *progRun_, pv any) {
+func execProgram(prog []refmodel.Stmt, sentinel, strict bool) (pr *progRun_, pv any) {
 	pr = &progRun_{}
 	ids := &refmodel.IDGen{}
 	rn, cn := 0, 0
@@ -176,6 +184,9 @@ func execProgram(prog []refmodel.Stmt, sentinel bool) (pr *progRun_, pv any) {
 	gprefix := "" // the concatenated normal forms of the enclosing groups' prefixes
 	pv = try(func() {
 		r := rux.New(rux.HandleMethodNotAllowed)
+		if strict {
+			r = rux.New(rux.HandleMethodNotAllowed, rux.StrictLastSlash)
+		}
 		pr.r = r
 		walk = func(stmts []refmodel.Stmt, top bool) {
 			for _, s := range stmts {
@@ -186,7 +197,7 @@ func execProgram(prog []refmodel.Stmt, sentinel bool) (pr *progRun_, pv any) {
 					mw := spare(mk(s.K), s.Spare)
 					body := s.Body
 					saved := gprefix
-					gprefix += refmodel.Norm(s.Prefix, false)
+					gprefix += refmodel.Norm(s.Prefix, strict)
 					r.Group(s.Prefix, func() { walk(body, false) }, mw...)
 					gprefix = saved
 				case "route":
@@ -194,6 +205,9 @@ func execProgram(prog []refmodel.Stmt, sentinel bool) (pr *progRun_, pv any) {
 					main := mkMain(1)
 					later := mk(s.K2)
 					path := fmt.Sprintf("/r%d", rn)
+					if s.Via == "slash" {
+						path += "/"
+					}
 					if s.Via == "echo" {
 						path = gprefix + path
 					}
@@ -262,7 +276,7 @@ func progString(prog []refmodel.Stmt) string {
 				w(s.Body)
 				sb.WriteString("}")
 			case "route":
-				fmt.Fprintf(&sb, "Route%s(mw=%d,laterUse=%d)", map[string]string{"": "", "any": ":Any", "attach": ":NewRoute+Use+AttachTo", "echo": ":own-path-repeats-the-group-prefix"}[s.Via], s.K, s.K2)
+				fmt.Fprintf(&sb, "Route%s(mw=%d,laterUse=%d)", map[string]string{"": "", "any": ":Any", "attach": ":NewRoute+Use+AttachTo", "echo": ":own-path-repeats-the-group-prefix", "slash": ":path-ends-in-a-slash"}[s.Via], s.K, s.K2)
 			case "controller", "resource":
 				fmt.Fprintf(&sb, "%s(%q,mw=%d)", s.Kind, s.Prefix, s.K)
 			default:
@@ -281,9 +295,12 @@ func progRun(c progCase, mode string, st *fw.Stats) []fw.Viol {
 			vs = append(vs, fw.Viol{Sig: sig, Msg: msg})
 		}
 	}
-	m := modelProgram(c.Prog)
-	pr, pv := execProgram(c.Prog, mode == "C12")
+	m := modelProgram(c.Prog, c.Strict)
+	pr, pv := execProgram(c.Prog, mode == "C12", c.Strict)
 	ps := progString(c.Prog)
+	if c.Strict {
+		ps += " | on a StrictLastSlash router"
+	}
 	if pv != nil {
 		add("program:panic", fmt.Sprintf("program [%s]: registration panicked: %v", ps, pv))
 		return vs
@@ -509,7 +526,7 @@ func allNext(ids []int) bool { return true }
 
 func progVariants(mode string, depth int, inGroup bool) []refmodel.Stmt {
 	var v []refmodel.Stmt
-	prefixes := [][]string{{"/g", "x"}, {"/h", "y/", "/g"}, {"/g/h"}}
+	prefixes := [][]string{{"/g", "x", "/{v}"}, {"/h", "y/", "/g"}, {"/g/h"}}
 	if mode == "C04" {
 		prefixes = [][]string{{"/g", "/"}, {"/h"}, {"/g/h"}}
 		v = append(v, refmodel.Stmt{Kind: "use", K: 1}, refmodel.Stmt{Kind: "use", K: 2})
@@ -525,6 +542,7 @@ func progVariants(mode string, depth int, inGroup bool) []refmodel.Stmt {
 		v = append(v, refmodel.Stmt{Kind: "route", K: 0}, refmodel.Stmt{Kind: "route", K: 1, K2: 1}, refmodel.Stmt{Kind: "route", K: 1, Via: "attach"})
 		if inGroup {
 			v = append(v, refmodel.Stmt{Kind: "route", K: 0, Via: "echo"})
+			v = append(v, refmodel.Stmt{Kind: "route", K: 0, Via: "slash"})
 		}
 		v = append(v, refmodel.Stmt{Kind: "controller", Prefix: "/c", K: 0}, refmodel.Stmt{Kind: "controller", Prefix: "/c", K: 1, Spare: true})
 		v = append(v, refmodel.Stmt{Kind: "resource", Prefix: "/", K: 0}, refmodel.Stmt{Kind: "resource", Prefix: "/api/", K: 1})
@@ -532,6 +550,9 @@ func progVariants(mode string, depth int, inGroup bool) []refmodel.Stmt {
 	if depth < len(prefixes) {
 		for _, p := range prefixes[depth] {
 			for k := 0; k <= 2; k++ {
+				if p == "/{v}" && k != 1 {
+					continue // the variable prefix once, with one middleware
+				}
 				v = append(v, refmodel.Stmt{Kind: "group", Prefix: p, K: k})
 				if mode == "C12" && k == 1 {
 					v = append(v, refmodel.Stmt{Kind: "group", Prefix: p, K: k, Spare: true})
@@ -565,6 +586,24 @@ func progEnum(mode string, budget, depth int, inGroup bool, cb func(body []refmo
 	}
 }
 
+func progHasVia(prog []refmodel.Stmt, via string) bool {
+	for _, s := range prog {
+		if s.Via == via || progHasVia(s.Body, via) {
+			return true
+		}
+	}
+	return false
+}
+
+func progHasKind(prog []refmodel.Stmt, kind string) bool {
+	for _, s := range prog {
+		if s.Kind == kind || progHasKind(s.Body, kind) {
+			return true
+		}
+	}
+	return false
+}
+
 func progGen(tier, mode string, emit func(progCase)) {
 	n := 4
 	if tier == "thorough" {
@@ -577,6 +616,12 @@ func progGen(tier, mode string, emit func(progCase)) {
 		}
 	}
 	progEnum(mode, n, 0, false, func(body []refmodel.Stmt, used int) {
-		emit(progCase{Prog: append([]refmodel.Stmt(nil), body...)})
+		// a program with a route whose path ends in '/' runs on a StrictLastSlash router (without that option the
+		// route is the same as a plain one); every program that has a group and at most 3 statements runs on both
+		strict := progHasVia(body, "slash")
+		emit(progCase{Prog: append([]refmodel.Stmt(nil), body...), Strict: strict})
+		if mode == "C12" && !strict && used <= 3 && progHasKind(body, "group") {
+			emit(progCase{Prog: append([]refmodel.Stmt(nil), body...), Strict: true})
+		}
 	})
 }
